@@ -195,7 +195,7 @@ pub fn run(ctx: &Ctx) -> i32 {
     }
     acc.finish(
         "exploration",
-        "texts: all token sequences of length <=3 over the 51-kind alphabet and <=5 (thorough 6) over a 12-kind alphabet behind three statement prefixes (exhaustive), 18 nesting families to depth 200, generated/mutated/corpus programs, arbitrary Unicode; per text: token tiling, token values vs slices, re-lexing of slices, tree leaves vs non-trivia tokens, node spans vs hull of leaves, syntax error spans; plus compiler error spans of the exploration workload; non-trivial = >=3 tokens and (multi-byte or lexical error or tree); distinct by text hash",
+        "texts: all token sequences of length <=3 over the 51-kind alphabet and <=5 (thorough 6) over a 12-kind alphabet behind three statement prefixes (exhaustive), 18 nesting families to depth 200, generated/mutated/corpus programs, arbitrary Unicode; per text: token tiling, token values vs slices, re-lexing of slices, tree leaves vs non-trivia tokens, node spans vs hull of leaves, syntax error spans; plus compiler error spans of the exploration workload; plus recorded language-server sessions over C15's histories (no fresh server): the error the library pipeline locates in the current texts must be among the diagnostics published for the document of its module, with exactly the range of its span in the client's text; non-trivial = >=3 tokens and (multi-byte or lexical error or tree); distinct by text hash",
         2000,
         false,
         &["the tokenizer is context-free longest-match, so re-lexing a token's slice alone is a sound check"],
